@@ -456,7 +456,7 @@ def fromString (e : Exc) : Res Unit :=
 def renderLoop (strict : Bool) (e : Exc) : Res Unit :=
   handle catch_template_BoundTemplate_render_with_context_0
     (fun i => match i with
-      | 0 => some (raise .LiquidSyntaxError)          -- a stray break/continue is reported as a syntax error
+      | 0 => some (if strict then raise .LiquidSyntaxError else pure ())   -- a stray break/continue is reported as a syntax error
       | 1 => some (pure ())
       | _ => some (if strict then raise e else pure ()))
     (.error e)
